@@ -414,6 +414,8 @@ def _anc(a):
 
 def features(script, v):
     f = ["backend=" + script["backend"], "segments=%d" % len(script["pool"])]
+    if len(script["pool"]) > 1:
+        f.append("multi-segment")
     if script.get("crash"):
         f.append("crash")
     allops = [o for sp in script["pool"] for o in sp["ops"]]
